@@ -15,7 +15,7 @@ TIMEOUT = {'quick': 300, 'thorough': 3000}
 N_HIST = {'quick': 700, 'thorough': 40000}
 RULE = ('cases: seeded histories of 15-30 add/remove/lookup ops over a universe of 6-10 agent objects sharing 4-6 ids (distinct '
         'objects with one id) carrying component subsets, in a plain Environment, a continuous SpaceWorld and grid worlds '
-        '(DiscreteWorld/LineWorld/GridWorld) with extents mixing 0 and >=1; after EVERY op all accessors are compared with the '
+        '(DiscreteWorld/LineWorld/GridWorld) with extents mixing 0 and >=1 (continuous also fractional extents below 1); after EVERY op all accessors are compared with the '
         'ordered-dict model and every error path is injected (duplicate add with the same object / an impostor, unknown-id '
         'remove and strict lookup, non-strict lookup, out-of-bounds placement on each positive axis and side, out-of-bounds with '
         'a taken id), each bracketed by a full-state snapshot. Non-trivial: history with a removal from the middle, a re-add '
@@ -49,7 +49,7 @@ def make_world(core, envs, rng, model):
         return kind, model.environment, None
     wrap = rng.random() < 0.3
     if kind == 'space':
-        ext = [rng.choice([1.0, 2.5, 7.125, 4.0]), rng.choice([0.0, 0.0, 3.0, 6.5]), rng.choice([0.0, 0.0, 2.0])]
+        ext = [rng.choice([1.0, 2.5, 7.125, 4.0, 0.5]), rng.choice([0.0, 0.0, 3.0, 6.5, 0.25]), rng.choice([0.0, 0.0, 2.0, 0.75])]
         env = envs.SpaceWorld(model, *ext, wrap_env=wrap)
     elif kind == 'discrete':
         ext = [rng.choice([0, 1, 3, 5]), rng.choice([0, 2, 4]), rng.choice([0, 1, 3])]
